@@ -534,13 +534,16 @@ impl World {
                     return Ok(());
                 }
                 let inputs: Vec<SIn> = out.in_msgs.iter().map(|(m, _)| classify(m)).collect();
-                let outs = match tracked(&out) {
+                let mut outs = match tracked(&out) {
                     Some(o) => o,
                     None => {
                         self.model_alive = false;
                         return Ok(());
                     }
                 };
+                // status notifications produced while handling input are neither required nor
+                // forbidden by the statement (they matter only as the answer to accept_request)
+                outs.retain(|o| !matches!(o, SOut::OnStatus { .. }));
                 for o in outs.iter() {
                     ctx.tr(|| format!("    -> {:?}", o));
                 }
